@@ -391,6 +391,71 @@ def check(chk):
                     chk.ob("BOUND-3", "a bulk increase fills the device exactly to capacity (%s)" % m.name, ok, m.where(x), construct=m.ident,
                            text="_last_count += %s" % amt)
     chk.expect(n_st >= 3, "C04: stores to the entrance counter lost (%d)" % n_st)
+    _snapshots_and_jam(chk, repo)
+
+
+def _snapshots_and_jam(chk, repo):
+    """SNAP-4: the count handler computes `new - old` with an `old` it read *in the same breath* as it writes the new count: between
+    the snapshot `old = self._ball_count` and the store of the new count nothing is awaited (the counting loop and wait_for_ball both
+    write the count; a snapshot taken before an await is the other coroutine's old news and the same ball is booked twice).
+    JAM-4: the switch counter distrusts a count of one with the jam switch active only when it had balls before (a lone ball that comes
+    to rest on the jam switch of an empty device is a ball); every other count that differs from the last one is recorded ball by ball
+    and becomes the last count."""
+    from sa.cfg import canon_set, canon_fact
+    from sa.helpers import positive
+    n_s = 0
+    for name in ("wait_for_ball", "_run"):
+        f = repo.func(BC, "BallCountHandler." + name)
+        chk.analysed(f)
+        cfg = f.cfg()
+        snaps = [n for n in cfg.nodes if n.kind == "stmt" and isinstance(n.ast, ast.Assign) and isinstance(n.ast.targets[0], ast.Name) and
+                 src(n.ast.value) == "self._ball_count"]
+        stores = [n for n in cfg.nodes if n.kind == "stmt" and ((isinstance(n.ast, ast.Assign) and src(n.ast.targets[0]) == "self._ball_count") or
+                                                                 any(call_attr(c) == "_set_ball_count" for c in n.calls()))]
+        aw = {n.id for n in cfg.nodes if n.kind == "stmt" and n.has_await()}
+        chk.need(snaps and stores, "SNAP-4", "%s snapshots the old count and stores the new one" % name, f)
+        for sn in snaps:
+            n_s += 1
+            first = [st for st in stores if st.id in cfg.reachable([sn.id])]
+            stale = None
+            for st in first:
+                for w in aw:
+                    if w in (sn.id, st.id):
+                        continue
+                    if cfg.path_avoiding(sn.id, [w], [x.id for x in stores], ignore_exc=True) and cfg.path_avoiding(w, [st.id], [], ignore_exc=True, include_start=False) and \
+                            cfg.path_avoiding(sn.id, [st.id], [], ignore_exc=True) and not cfg.dominates(st.id, w):
+                        # w lies between the snapshot and the store on some path
+                        p1 = cfg.path_avoiding(sn.id, [w], [x.id for x in stores], ignore_exc=True)
+                        p2 = cfg.path_avoiding(w, [st.id], [sn.id], ignore_exc=True)
+                        if p1 and p2:
+                            stale = stale or (p1 + p2[1:])
+            # the snapshot must also come after the await that delivered the new count
+            src_aw = [w for w in aw if isinstance(cfg.nodes[w].ast, ast.Assign) and src(cfg.nodes[w].ast.targets[0]) == "new_balls"]
+            before = any(cfg.dominates(w, sn.id) for w in src_aw)
+            chk.ob("SNAP-4", "%s reads the old count after the new one arrived and writes the new one without awaiting in between" % name,
+                   stale is None and before, f.where(sn.ast), path=cfg.fmt_path(stale, BC) if stale else None,
+                   detail="" if before else "the snapshot is taken before the await that delivers the new count", construct=f.ident, text="stale count snapshot in " + name)
+    chk.ob("SNAP-4", "count snapshots examined", n_s >= 2, BC + ":1", detail=str(n_s), nontrivial=False)
+
+    SWC = "mpf/devices/ball_device/switch_counter.py"
+    f = repo.func(SWC, "SwitchCounter._run")
+    chk.analysed(f)
+    cfg = f.cfg()
+    unrel = [n for n in cfg.nodes if n.kind == "stmt" and isinstance(n.ast, ast.Assign) and src(n.ast.targets[0]) == "self._is_unreliable" and src(n.ast.value) == "True"]
+    chk.need(len(unrel) == 1, "JAM-4", "SwitchCounter._run marks the count unreliable", f)
+    g = positive(set(canon_set(cfg.guards_at(unrel[0].id))))
+    want = positive({canon_fact("self.is_jammed()", True), canon_fact("new_count == 1", True), canon_fact("self._last_count != 0", True),
+                     canon_fact("self._is_unreliable", False)})
+    heads = [h for h in cfg.nodes if h.kind == "join" and isinstance(h.ast, ast.While)]
+    gh = positive(set(canon_set(cfg.guards_at(heads[0].id)))) if heads else set()
+    extra = {x for x in (g - gh) if x[0] not in ("self._last_count is None", "self._last_count < 0", "None is self._last_count", "0 > self._last_count", "True")}
+    chk.ob("JAM-4", "the count is distrusted exactly when only the jam switch is active and the device had balls before", extra == want, f.where(unrel[0].ast),
+           detail="guards %s" % sorted(extra), construct=f.ident, text="jam distrust guard")
+    upd = [n for n in cfg.nodes if n.kind == "stmt" and isinstance(n.ast, ast.Assign) and src(n.ast.targets[0]) == "self._last_count" and src(n.ast.value) == "new_count" and
+           cfg.guards_at(n.id).get("self._last_count is None") is not True]
+    diff = [n for n in cfg.nodes if n.kind == "branch" and n.value is False and src(n.ast).replace(" ", "") in ("new_count==self._last_count", "self._last_count==new_count")]
+    ok = len(upd) == 1 and len(diff) == 1 and bool(heads) and cfg.path_avoiding(diff[0].id, [heads[0].id], [upd[0].id], ignore_exc=True) is None
+    chk.ob("JAM-4", "a trusted count that differs from the last one becomes the last count", ok, f.where(), construct=f.ident, text="last count update")
 
 
 def battery():
@@ -426,6 +491,8 @@ def battery():
         M("twin: lost ball warning reworded", BD, "Path to canceled. Assuming the ball jumped to %s.", "Path cancelled. Assuming the ball jumped to %s.", None),
         M("a playfield deficit takes a ball from every other playfield", "mpf/core/ball_controller.py", "                        self.machine.events.post(\"playfield_jump\", source=playfield_source, target=playfield_target)\n                        break", "                        self.machine.events.post(\"playfield_jump\", source=playfield_source, target=playfield_target)", "DELTA-1"),
         M("playfield jump leaves the source's available balls", "mpf/core/ball_controller.py", "                        playfield_source.available_balls -= 1\n", "", "DELTA-1"),
+        M("old count read before the await that delivers the new one", BC, "        ball_changes = asyncio.ensure_future(self.counter.wait_for_ball_count_changes(0))\n        new_balls = await ball_changes\n\n        # update count\n        old_ball_count = self._ball_count\n", "        old_ball_count = self._ball_count\n        ball_changes = asyncio.ensure_future(self.counter.wait_for_ball_count_changes(0))\n        new_balls = await ball_changes\n\n        # update count\n", "SNAP-4"),
+        M("lone ball on the jam switch of an empty device distrusted", "mpf/devices/ball_device/switch_counter.py", "            if self.is_jammed() and new_count == 1 and self._last_count != 0:", "            if self.is_jammed() and new_count == 1:", "JAM-4"),
     ]
 
 
